@@ -1,8 +1,11 @@
 import SciVerif.Tie.Consts
 import SciVerif.Tie.Task
 import SciVerif.Props.C18
+import SciVerif.Tie.Pins
 /-! Tie A obligations for C18 on the current source. -/
 namespace SciVerif.Tie
+-- functions the model relies on without an obligation of its own naming them (pinned by bin/mkpins):
+-- PIN-ALSO: Scipipe.Process_initPortsFromCmdPattern
 open SciVerif.Generated
 
 /-- `NewTask` drains the carrier's sub-stream port until it is closed, for joined ports with a
@@ -32,7 +35,22 @@ theorem generated_substream_component_and_audit :
      Scipipe.Task_writeAuditLogs.any (fun a => a.kind == .assign_ && a.name == "auditInfo.Upstream[subIP.Path()]" && a.args == ["subIP.AuditInfo()"]) &&
      Scipipe.Task_TempDir.any (fun a => a.isCall "splitAllPaths" && a.args == ["subIPs.Path()"])) = true := by decide
 
+
+-- BEGIN PINS (written by bin/mkpins; do not edit by hand)
+/-- the Go functions this property's model and obligations were written against have exactly the
+pinned skeletons (SHA-256 prefix of the atom list) -/
+theorem pinned_skeletons_c18 :
+    pinsOk
+    [("Components.StreamToSubStream_Run", "3877054697bb0416"),
+     ("Scipipe.NewTask", "95298f03c320cb96"),
+     ("Scipipe.Process_initPortsFromCmdPattern", "4f7c6ade86c29af6"),
+     ("Scipipe.Task_TempDir", "6d565a2ddd3d0eb2"),
+     ("Scipipe.Task_formatCommand", "ccbe98735ce5c7d6"),
+     ("Scipipe.Task_writeAuditLogs", "5ee6e36ed2566be6")] = true := by decide
+-- END PINS
+
 end SciVerif.Tie
+#print axioms SciVerif.Tie.pinned_skeletons_c18
 #print axioms SciVerif.Tie.generated_newtask_drains_substream
 #print axioms SciVerif.Tie.generated_join_branch
 #print axioms SciVerif.Tie.generated_substream_component_and_audit
